@@ -31,6 +31,13 @@ type Reader struct {
 	current   uint32 // up to 4 bytes of input, valid bits MSB-aligned
 	validBits int    // number of valid bits in current
 
+	// srcErr is the error returned by r.  From then on zero bits are
+	// supplied; padBits counts how many of the validBits are such padding.
+	// Looking ahead past the end of the input is harmless: srcErr only
+	// becomes err once a padding bit is consumed.
+	srcErr  error
+	padBits int
+
 	line    []byte // Current line being decoded
 	refLine []byte // Reference line (previous line) for 2D decoding
 
@@ -378,8 +385,13 @@ func (r *Reader) peekBits(n int) uint32 {
 
 	for r.validBits < n {
 		var x byte
-		if r.err == nil { // after the first error, use an inifinite stream of zeros
-			x, r.err = r.r.ReadByte()
+		if r.err == nil && r.srcErr == nil {
+			x, r.srcErr = r.r.ReadByte()
+		}
+		if r.err != nil || r.srcErr != nil {
+			// after the first error, use an infinite stream of zeros
+			x = 0
+			r.padBits += 8
 		}
 		r.current |= uint32(x) << (24 - r.validBits)
 		r.validBits += 8
@@ -393,6 +405,13 @@ func (r *Reader) consumeBits(n int) {
 	}
 	r.current <<= n
 	r.validBits -= n
+	if r.validBits < r.padBits {
+		// bits from beyond the end of the input have been used
+		r.padBits = r.validBits
+		if r.err == nil {
+			r.err = r.srcErr
+		}
+	}
 }
 
 func (r *Reader) readBits(n int) uint32 {
